@@ -28,6 +28,7 @@ package jsonapi
 //@ spec upTyped(res *SoftResource) = res.data != nil ==> srTyped(res)
 
 //@ func UnmarshalPartialResource
+//@ flag post-per-return
 //@ props C13 C05
 //@ requires schema: schema != nil && allTypesWf(schema) && noIDField(schema)
 //@ modifies new[SoftResource], new[Type], new[map[string]any], new[map[string]Attr], new[map[string]Rel], new[time.Time], new[uint8], new[string], new[resourceSkeleton], new[map[string][]uint8], new[map[string]relationshipSkeleton], new[Identifier], new[[]Identifier], new[any], new[int], new[int8], new[int16], new[int32], new[int64], new[uint], new[uint16], new[uint32], new[uint64], new[bool], new[[]uint8]
@@ -92,3 +93,17 @@ package jsonapi
 //@ assert before Set#2 others-kept: forall r2 string :: r2 != r && r2 in res.Type.Rels ==> visited#1(r2) && r2 in typ.Rels && res.Type.Rels[r2] == typ.Rels[r2]
 //@ assert before Set#1 data-fields: res.data != nil ==> (forall k string :: k in res.data ==> srIsField(res, k))
 //@ assert before Set#2 data-fields: res.data != nil ==> (forall k string :: k in res.data ==> srIsField(res, k))
+//@ use Attr.UnmarshalToType: error-xor-value typed-string typed-int typed-int8 typed-int16 typed-int32 typed-int64 typed-uint typed-uint8 typed-uint16 typed-uint32 typed-uint64 typed-bool typed-time-Time typed-slice-byte
+//@ use Schema.GetType: found missing named first
+//@ assert after Set#1 cur-added: r in res.Type.Rels && res.Type.Rels[r] == typ.Rels[r]
+//@ assert after Set#2 cur-added: r in res.Type.Rels && res.Type.Rels[r] == typ.Rels[r]
+//@ assert after Set#1 prev-kept: forall r2 string :: visited#1(r2) && rsk_relData(old(text(data)), r2) != "" ==> r2 in res.Type.Rels && res.Type.Rels[r2] == typ.Rels[r2]
+//@ assert after Set#2 prev-kept: forall r2 string :: visited#1(r2) && rsk_relData(old(text(data)), r2) != "" ==> r2 in res.Type.Rels && res.Type.Rels[r2] == typ.Rels[r2]
+//@ assert after AddRel#0 attrs-done: forall a string :: (a in res.Type.Attrs) == rsk_hasAttr(old(text(data)), a)
+//@ assert after AddRel#1 attrs-done: forall a string :: (a in res.Type.Attrs) == rsk_hasAttr(old(text(data)), a)
+//@ assert after Set#1 attrs-done: forall a string :: (a in res.Type.Attrs) == rsk_hasAttr(old(text(data)), a)
+//@ assert after Set#2 attrs-done: forall a string :: (a in res.Type.Attrs) == rsk_hasAttr(old(text(data)), a)
+//@ assert after AddRel#0 attrs-def: forall a string :: a in res.Type.Attrs ==> a in typ.Attrs && res.Type.Attrs[a] == typ.Attrs[a]
+//@ assert after AddRel#1 attrs-def: forall a string :: a in res.Type.Attrs ==> a in typ.Attrs && res.Type.Attrs[a] == typ.Attrs[a]
+//@ assert after Set#1 attrs-def: forall a string :: a in res.Type.Attrs ==> a in typ.Attrs && res.Type.Attrs[a] == typ.Attrs[a]
+//@ assert after Set#2 attrs-def: forall a string :: a in res.Type.Attrs ==> a in typ.Attrs && res.Type.Attrs[a] == typ.Attrs[a]
